@@ -154,9 +154,30 @@ def vl: List[Int] := [1, 2]
 def va: A := A(1)
 def ni: Int? := None
 def na: A? := None
+def vt: (Int, Int) := (1, 2)
+def vtm: (Int, Str) := (1, "a")
+def vlt: List[(Int, Int)] := [(1, 2)]
+def vltm: List[(Int, Str)] := [(1, "x")]
+def vd: Dict[Str, Int] := {"k" => 1}
+class T(def t: Int)
+    def mt(fin self, k: (Int, Int)) -> Int =>
+        def (p, q) := k
+        p - q
+    def ml(fin self, k: List[(Int, Int)]) -> Int =>
+        for (p, q) in k do print(p - q)
+        1
+def ft(k: (Int, Int)) -> Int =>
+    def (p, q) := k
+    p - q
+def flt(k: List[(Int, Int)]) -> Int =>
+    for (p, q) in k do print(p - q)
+    1
+def vtt: T := T(1)
 """
 MATRIX_VALUES = {"Int": ["3", "vi"], "Float": ["2.5", "vf"], "Str": ['"s"', "vs"], "Bool": ["True", "vb"], "List": ["[1, 2]", "vl"],
-                 "A": ["A(1)", "va"], "OptInt": ["ni"], "OptA": ["na"], "None": ["None"], "Fun": ["fi"]}
+                 "A": ["A(1)", "va"], "OptInt": ["ni"], "OptA": ["na"], "None": ["None"], "Fun": ["fi"],
+                 "Tuple": ["(1, 2)", "vt"], "TupleMixed": ['(1, "a")', "vtm"], "ListTuple": ["[(1, 2)]", "vlt"],
+                 "ListTupleMixed": ['[(1, "x")]', "vltm"], "Dict": ['{"k" => 1}', "vd"]}
 BINARY = ["+", "-", "*", "/", "//", "mod", "^", "<", "<=", ">", ">=", "=", "!=", "and", "or", "in", "_and_", "_or_", "_xor_", "<<",
           ">>", "is", "?"]
 UNARY = ["-", "not ", "_not_ ", "sqrt "]
@@ -194,6 +215,16 @@ def operator_matrix():
             add("range:%s:%s" % (a, b), ["for i in %s .. %s do print(1)" % (v, w)])
             add("method_arg:%s:%s" % (a, b), ["def r := %s.ma(%s)" % (v, w), "print(1)"])
             add("fun_arg:%s" % b, ["def r := fi(%s)" % w, "print(1)"])
+        for w in MATRIX_VALUES[a]:
+            add("tuple_fun_arg:%s" % a, ["print(ft(%s))" % w])
+            add("tuple_list_fun_arg:%s" % a, ["print(flt(%s))" % w])
+            add("tuple_method_arg:%s" % a, ["print(vtt.mt(%s))" % w])
+            add("tuple_list_method_arg:%s" % a, ["print(vtt.ml(%s))" % w])
+            add("destructure:%s" % a, ["def (p, q) := %s" % w, "print(p - q)"])
+            add("destructure_annotated:%s" % a, ["def (p, q): (Int, Int) := %s" % w, "print(p - q)"])
+            add("for_destructure:%s" % a, ["for (p, q) in %s do print(p - q)" % w])
+            add("list_of:%s" % a, ["def r: List[Int] := [%s]" % w, "print(r[0] + 1)"])
+            add("list_tuple_init:%s" % a, ["def r: List[(Int, Int)] := %s" % w, "for (p, q) in r do print(p - q)"])
         add("attribute:%s" % a, ["def r := %s.a" % v, "print(1)"])
         add("attribute_unknown:%s" % a, ["def r := %s.nope" % v, "print(1)"])
         add("method_unknown:%s" % a, ["def r := %s.nope(1)" % v, "print(1)"])
@@ -253,9 +284,15 @@ def _f49(name):
         a[0] in ("Float", "OptInt", "Int") and a[1] in ("Float", "OptInt", "Int")
 
 
+def _f60(name):
+    k, a = _cell(name)
+    return k == "list_of" and a[0] == "OptInt"
+
+
 # cells of the operator matrix that open findings occupy (exclusion by construction: the cell itself)
 MATRIX_EXCLUSIONS = {"no_number_right_of_str_plus": _f10, "no_float_or_nullable_bitwise": _f47,
-                     "no_nullable_receiver_field": _f48, "no_float_or_nullable_range_bound": _f49}
+                     "no_nullable_receiver_field": _f48, "no_float_or_nullable_range_bound": _f49,
+                     "no_nullable_element_in_list": _f60}
 
 
 class C04:
